@@ -200,3 +200,30 @@ Lemma A_rejects :
   allowed P0 Actx (OBatch (tail Ab)) = false ∧
   allowed P0 Actx (OBatch [Aq]) = false.
 Proof. vm_compute. repeat split; reflexivity. Qed.
+
+(** two rounds for one shard: round 1 restores member 3 with members {1,2,3}; before round 2
+    member 1 was replaced by member 4 (version 5 -> 7).  The outcome of a round is judged by
+    THAT round's context only: a restore request carrying round 1's membership is not an
+    allowed outcome of round 2 (a scheduler object that remembers member lists across rounds
+    leaves the allowed set). *)
+Definition S1ctx : sctx := CTX 1000 [mkSD 1 [1;2;3] 7]
+  [SH 1 5 [REP 1 1 11 1000 10; REP 1 2 12 1000 10; REP 1 3 13 935 10]]
+  [HOST 11 1 1000 [] [1]; HOST 12 1 1000 [] [1]; HOST 13 1 1000 [(1,3)] [1]; HOST 14 1 1000 [] []] [].
+Definition S2ctx : sctx := CTX 1010 [mkSD 1 [1;2;3] 7]
+  [SH 1 7 [REP 1 4 14 1010 10; REP 1 2 12 1010 10; REP 1 3 13 935 10]]
+  [HOST 14 1 1010 [] [1]; HOST 12 1 1010 [] [1]; HOST 13 1 1010 [(1,3)] [1]] [].
+Definition S1b : list request := [REQ 0 1 [1;2;3] 0 [1;2;3] [11;12;13] 3 13 false true 7].
+Definition S2b : list request := [REQ 0 1 [2;3;4] 0 [2;3;4] [12;13;14] 3 13 false true 7].
+Lemma S_rounds :
+  allowed P0 S1ctx (OBatch S1b) = true ∧ allowed P0 S2ctx (OBatch S2b) = true ∧
+  allowed P0 S2ctx (OBatch S1b) = false.
+Proof. vm_compute. repeat split; reflexivity. Qed.
+(* the persisted log must name exactly the member: ids that only agree modulo 100000 / 2^32 do not count *)
+Definition Bctx : sctx := CTX 1000 [mkSD 100 [1;2;3] 7]
+  [SH 100 5 [REP 100 1 11 1000 10; REP 100 2 12 1000 10; REP 100 7300003 13 935 10]]
+  [HOST 11 1 1000 [(100,1)] [100]; HOST 12 1 1000 [(100,2)] [100]; HOST 13 1 1000 [(100,3); (100100,7300003)] [100];
+   HOST 15 1 1000 [] []] [].
+Lemma B_big_ids :
+  allowed P0 Bctx (OBatch [REQ 0 100 [1;2;7300003] 0 [1;2;7300003] [11;12;13] 7300003 13 false true 7]) = false ∧
+  allowed P0 Bctx (OBatch [REQ 2 100 [77] 5 [] [15] 0 11 false false 0]) = true.
+Proof. vm_compute. split; reflexivity. Qed.
